@@ -190,25 +190,32 @@ func TestDriverBasefee(t *testing.T) {
 			}
 			side.Hit(sig, fmt.Sprintf("CalculateBaseFee panicked: %v", p), c)
 		} else {
-			// never negative, never below trunc(min gas price)
-			minTrunc := new(big.Int).Quo(minDec, e18)
-			if got.BigInt().Sign() < 0 || got.BigInt().Cmp(minTrunc) < 0 {
-				side.Hit("C09/basefee/below-floor", "next base fee negative or below trunc(min gas price)", c)
-			}
-			if used == target && maxGas != 0 && got.BigInt().Cmp(new(big.Int).Set(maxBig(b, minTrunc))) != 0 {
-				side.Hit("C09/basefee/changed-at-target", "base fee changed although usage equals the target", c)
+			// the property text, re-computed independently of the implementation and of the Coq model (hx.C09SpecNext):
+			// never negative, never below trunc(min gas price), unchanged at the target, otherwise moved by
+			// b x |used - target| / target / 8 in integer arithmetic, at least +1 above the target
+			g := got.BigInt()
+			minTrunc := C09FloorMin(minDec)
+			want, cl := C09SpecNext(b, used, maxGas, minDec)
+			side.Count("spec-class:" + cl)
+			switch {
+			case g.Sign() < 0:
+				side.Hit("C09/basefee/negative", fmt.Sprintf("next base fee %s is negative", g), c)
+			case g.Cmp(minTrunc) < 0:
+				side.Hit("C09/basefee/below-floor", fmt.Sprintf("next base fee %s is below trunc(min gas price) %s", g, minTrunc), c)
+			case g.Cmp(want) != 0:
+				class := strings.TrimSuffix(cl, "-clamped")
+				if class == "above-target" && g.Cmp(b) <= 0 {
+					class = "above-target/not-raised-by-at-least-1"
+				}
+				if class == "below-target" && g.Cmp(b) > 0 {
+					class = "below-target/raised"
+				}
+				side.Hit("C09/basefee/not-eip1559/"+class, fmt.Sprintf("next base fee %s, EIP-1559 from the property text gives %s (%s; target %s)", g, want, cl, C09Target(maxGas)), c)
 			}
 		}
 	}
 	cases.Write(t, 500)
 	side.Write(t, dir)
-}
-
-func maxBig(a, b *big.Int) *big.Int {
-	if a.Cmp(b) >= 0 {
-		return a
-	}
-	return b
 }
 
 func mgClass(m int64) string {
